@@ -179,6 +179,47 @@ def run(chk):
         Amplitude("t2", (a,), (i,)) * Amplitude("t2", (b,), (j,)),
     ]
     orders = ["iajb", "ijab", "aibj", "abij", "jbia", "ibja"]
+    # chains of three and four spin-constrained factors: the search for a
+    # valid spin combination has to back-track
+    d, e, f_, l, m = get_symbols("deflm")
+    V_ = lambda p, q, r_, s_: AntiSymmetricTensor(tn.eri, (p, q), (r_, s_), 1)  # noqa
+    chains = [
+        (Amplitude("t1", (d, e), (j, k)) * V_(a, c, j, d) * V_(k, e, i, b),
+         ["iabc", "aibc", "cbai"]),
+        (Amplitude("t1", (a, d), (i, k)) * V_(k, l, d, e) *
+         Amplitude("t1", (e, b), (l, j)), ["ijab", "iajb", "bjai"]),
+        (V_(i, d, a, k) * V_(k, e, d, l) * V_(l, b, e, j), ["iajb", "ijab"]),
+        (Amplitude("t1", (a, d), (i, k)) * V_(k, l, d, e) * V_(l, m, e, f_) *
+         Amplitude("t1", (f_, b), (m, j)), ["ijab", "iajb"]),
+        (Amplitude("t2", (a, d), (i, k)) * V_(k, b, d, c), ["iabc", "abci"]),
+    ]
+    for x0, tstrs in chains:
+        for tstr in (tstrs[:2] if quick else tstrs):
+            tsyms = get_symbols(tstr)
+            expr = Expr(x0, real=True, target_idx=tsyms)
+            res, exc = guarded(allowed_spin_blocks, expr, tstr)
+            chk.count("allowed_spin_blocks_calls")
+            what = f"allowed_spin_blocks({x0}, '{tstr}')"
+            if exc:
+                chk.report_direct("spin_blocks:exception", f"{what} raised "
+                                  f"{exc['type']}: {exc['msg']}", exc)
+                continue
+            ctx = adapter.Ctx()
+            pre = adapter.project_expr(Expr(x0, real=True, target_idx=tsyms), ctx)
+            tgt = [ctx.index(s_) for s_ in tsyms]
+            adapter.fill_order(pre, tgt)
+            if build.cost([pre], ctx.idx, tgt, 2, 2, True) > 3e7:
+                chk.count("too_expensive")
+                continue
+            bkn = events.collect_bk(ctx, [(pre, True)], (tn.eri, tn.fock))
+            chk.add_event({
+                "op": "spin_blocks", "key": "spin_blocks:chains", "what": what,
+                "idx": ctx.idx, "tgt": tgt, "names": ctx.name_list(),
+                "models": spin_models(ctx, bkn, False, seeds=(1,)),
+                "pre": pre, "post": [],
+                "tabhint": build.table_hint([pre], ctx, tgt, (2, 2), True),
+                "a": {"allowed": [list(b_) for b_ in res] or [["-"]]},
+                "text": {"pre": str(x0), "post": str(res)}})
     for x0 in structured:
         for tstr in (orders if not quick else r.sample(orders, 3) + ["iajb"]):
             tsyms = get_symbols(tstr)
